@@ -155,7 +155,7 @@ func main() {
 			if c := eng.contracts[n]; c != nil && c.Trusted {
 				// lock-discipline sweep of a function whose functional contract is trusted: only its
 				// lock clauses apply to the body
-				lc = &Contract{Name: c.Name, ParamNames: c.ParamNames, Results: c.Results, Holds: c.Holds, Extra: map[string][]*Clause{"holds_read": c.Extra["holds_read"]},
+				lc = &Contract{Name: c.Name, ParamNames: c.ParamNames, Results: c.Results, Holds: c.Holds, Extra: map[string][]*Clause{"holds_read": c.Extra["holds_read"], "serves": c.Extra["serves"], "blocks": c.Extra["blocks"]},
 					Loops: map[int]*LoopSpec{}, Pkg: c.Pkg, Sig: c.Sig, Props: c.Props, HasAssigns: true, Assigns: []*AssignTarget{{Kind: "everything"}}}
 			}
 			o.Functions = append(o.Functions, eng.verifyFunction(eng.allFuncs[n], lc))
